@@ -237,6 +237,10 @@ class Interp:
             _counter[0] += 1
             self.scratch = os.path.join(f'{SCRATCH}-{os.getpid()}',
                                         f'rt{_counter[0]}')
+            if os.path.exists(self.scratch):
+                # (left behind by a dead process that had this pid)
+                import shutil
+                shutil.rmtree(self.scratch, ignore_errors=True)
             os.makedirs(self.scratch)
         path = os.path.join(self.scratch, f'w{hid}.json')
         with open(path, 'w') as f:
